@@ -368,9 +368,37 @@ func (x *Exec) applyContract(c *Contract, args []Value, st *State, pc *Term) Val
 	var conj []*Term
 	saveO := x.obligs
 	for _, cl := range c.Ensures {
+		if cl.Label == "diffalt" {
+			continue
+		}
+		if !c.Discharged && len(c.DischargedBits) == 0 {
+			break // frame-only use of the contract
+		}
+		if !c.Discharged && cl.Label != "diff" {
+			continue
+		}
 		r := x.evalPred(cl.Fn, args, pre, st, nil, results).(*Term)
 		if cl.Label == "diff" {
-			r = b.Eq(r, b.Const(r.S.W, 0))
+			// one hypothesis per component bit, built exactly like the goals of
+			// contractVC so that identical components fold syntactically; only the
+			// components discharged (for every case) in this run are assumed
+			_, bits := x.ld.components()
+			okBit := map[int]bool{}
+			for n, k := range bits {
+				if c.Discharged || c.DischargedBits[n] {
+					okBit[k] = true
+				}
+			}
+			for k := 0; k < r.S.W; k++ {
+				if !okBit[k] {
+					continue
+				}
+				e := b.Eq(b.Extract(k, k, r), b.Const(1, 0))
+				if e.Op != "true" {
+					conj = append(conj, e)
+				}
+			}
+			continue
 		}
 		conj = splitAnd(r, conj)
 	}
